@@ -24,6 +24,8 @@ pub trait Explorable: Sync {
     fn check_state(&self, s: &Self::State, depth: usize);
     /// checks on one transition (return values, parent isolation, ...)
     fn check_transition(&self, _parent: &Self::State, _a: &Self::Action, _child: &Self::State) {}
+    /// the implementation panicked while executing `a` from `s` (or while being observed in `s`)
+    fn report_panic(&self, _s: &Self::State, _a: Option<&Self::Action>, _location: &str, _message: &str) {}
 }
 
 #[derive(Debug, Default, Clone)]
@@ -47,7 +49,11 @@ pub fn explore<M: Explorable>(ctx: &Ctx, model: &M, max_ops: usize) -> BfsStats 
             frontier.push(s);
         }
     }
-    crate::common::par_for_each(ctx.threads, &frontier, |_, s| model.check_state(s, 0));
+    crate::common::par_for_each(ctx.threads, &frontier, |_, s| {
+        if let Err((loc, msg)) = crate::common::guarded(|| model.check_state(s, 0)) {
+            model.report_panic(s, None, &loc, &msg);
+        }
+    });
     stats.states_per_depth.push(frontier.len() as u64);
     stats.states = frontier.len() as u64;
     stats.exhaustive_within_bound = true;
@@ -72,13 +78,30 @@ pub fn explore<M: Explorable>(ctx: &Ctx, model: &M, max_ops: usize) -> BfsStats 
             }
             let mut local = Vec::new();
             for a in model.actions(s) {
-                if let Some(child) = model.step(s, &a) {
+                let stepped = match crate::common::guarded(|| model.step(s, &a)) {
+                    Ok(c) => c,
+                    Err((loc, msg)) => {
+                        transitions.fetch_add(1, Ordering::Relaxed);
+                        model.report_panic(s, Some(&a), &loc, &msg);
+                        None
+                    }
+                };
+                if let Some(child) = stepped {
                     transitions.fetch_add(1, Ordering::Relaxed);
-                    model.check_transition(s, &a, &child);
-                    let k = model.key(&child);
-                    if seen.insert(fp128(k.as_bytes())) {
-                        model.check_state(&child, depth + 1);
-                        local.push(child);
+                    let res = crate::common::guarded(|| {
+                        model.check_transition(s, &a, &child);
+                        let k = model.key(&child);
+                        if seen.insert(fp128(k.as_bytes())) {
+                            model.check_state(&child, depth + 1);
+                            true
+                        } else {
+                            false
+                        }
+                    });
+                    match res {
+                        Ok(true) => local.push(child),
+                        Ok(false) => {}
+                        Err((loc, msg)) => model.report_panic(s, Some(&a), &loc, &msg),
                     }
                 }
             }
